@@ -415,12 +415,11 @@ impl WalRecuperator {
 
         let schema = table.schema();
 
-        if let Some(undo_row) =
-            Row::from_bytes_checked_with_snapshot(update_op.undo(), schema, &snapshot)?
-        {
-            if let Some(redo_row) =
-                Row::from_bytes_checked_with_snapshot(update_op.redo(), schema, &snapshot)?
-            {
+        // The log says this transaction committed: its images are applied as they are. (They
+        // must not be filtered through the recovery transaction's snapshot, whose horizon is
+        // the last checkpoint: every transaction that committed after it would be dropped.)
+        if let Some(undo_row) = Some(Row::from_bytes_checked(update_op.undo(), schema)?) {
+            if let Some(redo_row) = Some(Row::from_bytes_checked(update_op.redo(), schema)?) {
                 // Redo: apply new state
                 self.dml_executor
                     .update_row(table_id, &row_id, &undo_row, &redo_row)?;
@@ -445,9 +444,8 @@ impl WalRecuperator {
 
         let schema = table.schema();
 
-        if let Some(row) =
-            Row::from_bytes_checked_with_snapshot(insert_op.redo(), schema, &snapshot)?
-        {
+        // See redo_update: committed work is redone regardless of the recovery snapshot.
+        if let Some(row) = Some(Row::from_bytes_checked(insert_op.redo(), schema)?) {
             let columns = schema.column_indexes();
             self.dml_executor.insert(table_id, &columns, &row)?;
         }
